@@ -18,6 +18,8 @@ mod priv_body { include!("/repo/src/http_client/body.rs"); include!("priv_body_e
 mod priv_splitter { include!("/repo/src/util/stream_splitter.rs"); include!("priv_splitter_ext.rs"); }
 
 mod priv_metadata { include!("/repo/src/storage/metadata.rs"); include!("priv_metadata_ext.rs"); }
+mod priv_check { include!("/repo/src/uploading/check.rs"); }
+mod priv_upconfig { include!("/repo/src/uploading/config.rs"); pub fn ext_parse_duration(s: &str) -> Option<u64> { parse_duration(s).ok().map(|d| d.as_secs()) } }
 mod priv_sync { include!("/repo/src/uploading/sync.rs"); }
 
 mod ops;
